@@ -863,6 +863,11 @@ func (f *Frame) evalCall(e *spec.Call, st, old *State) TV {
 		a := f.eval(e.Args[0], st, old)
 		_, off, _, _ := sliceParts(a.V)
 		return TV{off, types.Typ[types.Int]}
+	case "allocated":
+		// allocated(p): the reference p denotes an object that exists in the current state
+		a := f.eval(e.Args[0], st, old)
+		live := x.heapGet(st, "$live", smt.Array(RefS, smt.Bool))
+		return TV{B.Select(live, x.scalar(a.V, a.T)), types.Typ[types.Bool]}
 	case "fpeq":
 		return TV{B.FPCmp("fp.eq", f.evalTerm(e.Args[0], st, old), f.evalTerm(e.Args[1], st, old)), types.Typ[types.Bool]}
 	}
